@@ -73,61 +73,9 @@ def run(ctx):
         ctx.extra["backfill_histories"] = nback
         # (a3) several channels of one rate but different cadences recorded by one process at the same time (the layout of a
         # file depends on its own channel's cadences only, whatever other writer objects the process holds or held)
-        npair = 0
-        for i in range(ctx.pick(10, 250)):
-            import numpy as np
-            from ..drivers import chan_drv as cd
-            import shutil
-            n, d, fc = cg.random_rate(rng, 300)
-            t0 = (rng.randint(315532800, 4102444800) * 1000) // (fc * 6000) * (fc * 6000)
-            variants = [(fc, 1), (fc * 2, 1), (fc * 3, 2), (fc, 5)]
-            rng.shuffle(variants)
-            chans = []
-            for vi, (fcv, k) in enumerate(variants[:rng.choice([2, 2, 3])]):
-                sc_ms = fcv * k
-                while sc_ms % 1000:
-                    sc_ms += fcv * k
-                cfg = cd.ChanConfig(n, d, fcv, sc_ms // 1000, np.dtype("<i2"), False, 1, rng.choice(["gapped", "contC"]), t0, 4, seed=1000 * i + vi)
-                root = os.path.join(ctx.work, "chan_pair%d" % vi)
-                shutil.rmtree(root, ignore_errors=True)
-                os.makedirs(root)
-                chans.append((cfg, cd.Channel(digital_rf, root, cfg, [cfg.params()]), root))
-            if rng.random() < 0.5:
-                # one after the other: the next recording starts where (in time) the previous one is
-                # (a short burst each, the next channel starting inside the file period the previous one has just written)
-                cfg0 = chans[0][0]
-                abs0 = cfg0.bound[1] + cfg0.B + rng.choice([0, 1, 2])
-                for ci, (cfg, ch, root) in enumerate(chans):
-                    b = cfg.bound
-                    rel = abs0 + ci - cfg.B
-                    if not (b[0] <= rel < b[-1] - 8):
-                        continue
-                    ch.open(1, rel, 1)
-                    ch.write([[rel, rng.choice([1, 2, 3])]])
-                    if rng.random() < 0.5:
-                        ch.write([[rel + 4, 2]])
-                    ch.close()
-            else:
-                # alternately, burst by burst
-                for cfg, ch, root in chans:
-                    ch.open(1, cfg.bound[0], 1)
-                    ch.pos = cfg.bound[0]
-                for burst in range(3):
-                    for cfg, ch, root in chans:
-                        b = cfg.bound
-                        ln = max(1, min((b[1] - b[0]) // 2 + 1, b[-1] - ch.pos - 1, 3000))
-                        if ln >= 1 and ch.pos + ln < b[-1]:
-                            ch.write([[ch.pos, ln]])
-                            ch.pos += ln
-                for cfg, ch, root in chans:
-                    ch.close()
-            for vi, (cfg, ch, root) in enumerate(chans):
-                ch.observe([1], rng, npairs=2, nvec=0)
-                scen.append(ch.scenario("pair%d-%d" % (i, vi)))
-                recs.append((cfg, ch.file_records))
-                shutil.rmtree(root, ignore_errors=True)
-            npair += 1
-        ctx.extra["channel_groups_recorded_by_one_process"] = npair
+        s3, r3 = cc.multi_writer_histories(ctx, digital_rf, ctx.pick(10, 250))
+        scen += s3
+        recs += r3
         for cfg, rr in recs:
             byd = {}
             for r in rr:
